@@ -72,10 +72,17 @@ def run(ctx):
     cres, ctrace = ctx.path("cres.ndjson"), ctx.path("ctrace.ndjson")
     r = ctx.run_bin("xp-race", ["conc", "-sched", allsched, "-out", cres, "-trace", ctrace], timeout=1800, check=False)
     races = r.stderr.count("WARNING: DATA RACE")
-    if r.returncode not in (0, 66) or not r.stdout.strip():
+    fatal1 = re.search(r"fatal error: concurrent map[^\n]*", r.stderr)
+    if fatal1:
+        i = r.stderr.find("fatal error: concurrent map")
+        ctx.disagree(dict(site="race-detector", phase="schedule-replay-fatal"), "the Go runtime aborted the schedule replay: " + fatal1.group(0),
+                     dict(kind="race", report=r.stderr[i:i + 3000]))
+        cstats, viol = dict(aborted=fatal1.group(0), steps=0, schedules=0), []
+    elif r.returncode not in (0, 66) or not r.stdout.strip():
         raise Infra(f"xp conc failed rc={r.returncode}:\n{r.stderr[-3000:]}")
-    cstats = json.loads(r.stdout.strip().splitlines()[-1])
-    viol = read_ndjson(cres)
+    else:
+        cstats = json.loads(r.stdout.strip().splitlines()[-1])
+        viol = read_ndjson(cres)
     # runner traces against the machine spec
     fails, runs, events = fam_xpath.validate_traces(ctx, ctrace, 6)
     ctx.traces += runs
@@ -100,10 +107,18 @@ def run(ctx):
     sres = ctx.path("sres.ndjson")
     r2 = ctx.run_bin("xp-race", ["stress", "-g", "16", "-n", "400" if quick else "5000", "-out", sres], timeout=1800, check=False)
     races2 = r2.stderr.count("WARNING: DATA RACE")
-    if r2.returncode not in (0, 66) or not r2.stdout.strip():
+    fatal2 = re.search(r"fatal error: concurrent map[^\n]*", r2.stderr)
+    if fatal2:
+        # the Go runtime stopped the process: unsynchronised access to a map shared by the goroutines of the real code
+        i = r2.stderr.find("fatal error: concurrent map")
+        ctx.disagree(dict(site="race-detector", phase="stress-fatal"), "the Go runtime aborted the stress run: " + fatal2.group(0),
+                     dict(kind="race", report=r2.stderr[i:i + 3000]))
+        sstats = dict(aborted=fatal2.group(0))
+    elif r2.returncode not in (0, 66) or not r2.stdout.strip():
         raise Infra(f"xp stress failed rc={r2.returncode}:\n{r2.stderr[-3000:]}")
-    sstats = json.loads(r2.stdout.strip().splitlines()[-1])
-    viol += read_ndjson(sres)
+    else:
+        sstats = json.loads(r2.stdout.strip().splitlines()[-1])
+        viol += read_ndjson(sres)
 
     for v in viol:
         ctx.disagree(dict(site="concurrency", what=v["sig"]), v["what"],
